@@ -306,9 +306,28 @@ pub fn inject_one(rng: &mut Rng, base: &TsDoc, which: usize) -> Option<Fault> {
                         f.ty = ifield.ty.nullable().clone();
                         done!("TS7", format!("interface-field-type|nullable-for-non-null|{}", kind_label(kind)));
                     }
-                    let other = if ifield.ty.base() == "Int" { "String" } else { "Int" };
-                    f.ty = ifield.ty.with_base(other);
-                    done!("TS7", format!("interface-field-type|unrelated-type|{}", kind_label(kind)));
+                    match rng.below(4) {
+                        0 => {
+                            // list shape: one wrapper more / one less
+                            if let Ty::List(inner, _) = ifield.ty.nullable() {
+                                f.ty = inner.nullable().clone();
+                                done!("TS7", format!("interface-field-type|named-for-list|{}", kind_label(kind)));
+                            }
+                            f.ty = Ty::list(ifield.ty.clone());
+                            done!("TS7", format!("interface-field-type|list-for-named|{}", kind_label(kind)));
+                        }
+                        _ => {
+                            // an output type of a chosen kind that is not a subtype of what the interface promises
+                            let want = ifield.ty.base().to_string();
+                            let kinds = [TKind::Scalar, TKind::Enum, TKind::Object, TKind::Interface, TKind::Union];
+                            let k = kinds[rng.below(kinds.len())];
+                            let cands: Vec<String> = ix.order.iter().filter(|t| ix.kind(t) == Some(k) && **t != want && !ix.is_subtype(&Ty::named(t), &Ty::named(&want))).cloned().collect();
+                            let other = rng.pick_opt(&cands)?.clone();
+                            f.ty = ifield.ty.with_base(&other);
+                            let kl = |k: Option<TKind>| match k { Some(TKind::Scalar) => "scalar", Some(TKind::Enum) => "enum", Some(TKind::Object) => "object", Some(TKind::Interface) => "interface", Some(TKind::Union) => "union", _ => "other" };
+                            done!("TS7", format!("interface-field-type|unrelated-type|implementer-has={}|interface-has={}|{}", kl(Some(k)), kl(ix.kind(&want)), kind_label(kind)));
+                        }
+                    }
                 }
                 24 => {
                     if ifield.args.is_empty() {
